@@ -292,7 +292,9 @@ class Ctx:
             self.samples.append(s)
 
     def fail(self, env: str, kind: str, what: str, replay: Dict[str, Any], sig: Optional[Dict[str, Any]] = None) -> None:
-        if len(self.failures) < 200:
+        # cap per (env, kind) so that a flood of one (possibly known) failure cannot crowd out a different one
+        n = sum(1 for f in self.failures if f.env == env and f.kind == kind)
+        if n < 40 and len(self.failures) < 2000:
             self.failures.append(Failure(self.pid, env, kind, what, replay, sig))
 
     def disagree(self, env: str, what: str, case: Dict[str, Any]) -> None:
